@@ -622,14 +622,14 @@ theorem C04_refines_get_block (norm : Str → Str) (s : Store) (n : Name) (hn : 
 /-- C04_refines, block level, proved: cif_create_block commutes with `abs`: on success the documented model gains exactly one
     empty block under the given spelling and everything else is as before; it fails with the same code exactly when the
     documented model refuses (invalid code, duplicate after normalisation), leaving the store identical.
-    Hypotheses: block names are stored normalised (`BlocksNormOK`), the next id is unused (`IdFresh`; AUTOINCREMENT). -/
+    Hypotheses: the store invariant (every reachable state) and block names stored normalised (`BlocksNormOK`; `norm` is C09's). -/
 theorem C04_refines_create_block (norm : Str → Str) (s : Store) (n : Name) (hac : s.autocommit = true)
-    (hn : BlocksNormOK norm s.db) (hfresh : IdFresh s.db) :
+    (hn : BlocksNormOK norm s.db) (hinv : Inv s.db) :
     match (createBlock s (some n)).2 with
     | .ok h => specCreateBlock norm (abs s.db) n.key n.orig n.valid = .ok (abs (createBlock s (some n)).1.db) ∧ h.code = n.orig ∧
                (createBlock s (some n)).1.autocommit = true
     | .error c => specCreateBlock norm (abs s.db) n.key n.orig n.valid = .error c ∧ (createBlock s (some n)).1 = s :=
-  createBlock_refines norm s n hac hn hfresh
+  createBlock_refines norm s n hac hn hinv.idFresh
 
 /-- C04_refines, frame level, proved: cif_container_get_frame returns exactly the save frame the documented model finds among the
     container's frames (whatever nesting depth `fuel` the container is viewed at), CIF_NOSUCH_FRAME exactly when there is none,
